@@ -427,7 +427,13 @@ class Recorder:
             fsite = "poll"
         else:
             fsite = site
-        Xlog = fl.X[: fl.X_max_idx + 1].copy()
+        # the true log (not only the prefix X[:X_max_idx+1] that the filter itself reads)
+        try:
+            n_true = int(min(max(int(fl.Xn), int(fl.X_max_idx)) + 1, fl.X.shape[0]))
+            whole = bool(int(fl.X_max_idx) == int(fl.Xn))
+        except Exception:
+            n_true, whole = int(fl.X_max_idx + 1), False
+        Xlog = fl.X[:n_true].copy()
         out2 = np.atleast_2d(out) if out.size else out.reshape(0, Uin.shape[1] if Uin.ndim == 2 else 0)
         lbv = lb.ravel()
         ubv = ub.ravel()
@@ -465,7 +471,7 @@ class Recorder:
                   n_in=int(np.atleast_2d(Uin).shape[0]), n_out=int(n_out), n_oob=n_oob,
                   n_dup=int(n_dup), n_already=int(n_already), n_infeas=int(n_infeas),
                   n_alien=int(n_alien), has_cons=cons is not None,
-                  n_logged=int(Xlog.shape[0]), small=small,
+                  n_logged=int(Xlog.shape[0]), whole=whole, small=small,
                   out=out2 if fsite in ("init", "search", "poll") and n_out <= 64 else None)
 
     # ------------------------------------------------------------------
